@@ -331,3 +331,56 @@ func NewTimer(d time.Duration) *Timer {
 	})
 	return t
 }
+
+// Ticker replaces *time.Ticker: ticks are delivered on the simulated clock by a background helper.
+type Ticker struct {
+	C       *Chan[time.Time]
+	mu      Mutex
+	stopped bool
+	real    *time.Ticker
+}
+
+func NewTicker(d time.Duration) *Ticker {
+	t := &Ticker{C: MakeChan[time.Time](1)}
+	if cur.Load() == nil {
+		t.real = time.NewTicker(d)
+		go func() {
+			for x := range t.real.C {
+				select {
+				case t.C.real <- x:
+				default:
+				}
+			}
+		}()
+		return t
+	}
+	goDaemon(func() {
+		for {
+			Sleep(d)
+			t.mu.Lock()
+			stop := t.stopped
+			t.mu.Unlock()
+			if stop {
+				return
+			}
+			// like the real ticker: a tick is dropped if the previous one has not been taken
+			if i, _ := Select(true, SendCase(t.C)); i == 0 {
+				t.C.PutSelected(Now())
+			}
+		}
+	})
+	return t
+}
+
+func (t *Ticker) Stop() {
+	if t.real != nil {
+		t.real.Stop()
+		return
+	}
+	t.mu.Lock()
+	t.stopped = true
+	t.mu.Unlock()
+}
+
+// Tick replaces time.Tick.
+func Tick(d time.Duration) *Chan[time.Time] { return NewTicker(d).C }
